@@ -1,5 +1,7 @@
-(* C04 correspondence: one history of forwarding flips and RA generations over 1-3 interfaces (separate advertisers
-   sharing one State and one Metrics), with what was observed at every generation. *)
+(* C04 correspondence: one history of forwarding flips and RA generations over 1-3 advertising interfaces (separate
+   advertisers sharing one State and one Metrics) and 0-2 monitoring / unused interfaces anywhere in the interface
+   list, with what was observed at every generation (for an interface that does not advertise: at every visit of
+   the metrics scrape, path ScrapeIdle). *)
 From CR Require Export Model.Forwarding.
 Local Open Scope Z_scope.
 
@@ -62,7 +64,8 @@ Definition is_log_path (p : path) : bool :=
 
 Definition holds_one (cfg : N -> ra) (fwd : bool) (i : N) (p : path) (o : obs) : bool :=
   let base := cfg i in
-  let configured := match p with Final => 0 | _ => ra_lifetime base end in
+  (* nothing is configured to be advertised on the final path and for an interface that does not advertise *)
+  let configured := match p with Final | ScrapeIdle => 0 | _ => ra_lifetime base end in
   let want := if fwd then configured else 0 in
   let misconfigured := negb fwd && (0 <? configured) in
   (* the RA: lifetime as required, everything else as configured *)
@@ -80,7 +83,7 @@ Definition holds_one (cfg : N -> ra) (fwd : bool) (i : N) (p : path) (o : obs) :
    | Api => true
    | _ => optb_eqb (ob_surfaced o) (Some misconfigured)
    end) &&
-  (match p with Scrape => optb_eqb (ob_fwd_gauge o) (Some fwd) | _ => true end) &&
+  (match p with Scrape | ScrapeIdle => optb_eqb (ob_fwd_gauge o) (Some fwd) | _ => true end) &&
   (* the live state is consulted for this very generation *)
   (1 <=? ob_reads o)%N.
 
